@@ -181,10 +181,12 @@ func (c *Channel) exit(deleted bool) error {
 		// since we are explicitly deleting a channel (not just at system exit time)
 		// de-register this from the lookupd
 		c.nsqd.Notify(c, !c.ephemeral)
+		verifPoint("chan.delete.afterNotify")
 	} else {
 		c.nsqd.logf(LOG_INFO, "CHANNEL(%s): closing", c.name)
 	}
 
+	verifPoint("chan.exit.stage1")
 	// this forceably closes client connections
 	c.RLock()
 	for _, client := range c.clients {
@@ -198,6 +200,7 @@ func (c *Channel) exit(deleted bool) error {
 		return c.backend.Delete()
 	}
 
+	verifPoint("chan.exit.stage2")
 	// write anything leftover to disk
 	c.flush()
 	return c.backend.Close()
@@ -208,6 +211,7 @@ func (c *Channel) Empty() error {
 	defer c.Unlock()
 
 	c.initPQ()
+	verifPoint("chan.empty.afterInitPQ")
 	for _, client := range c.clients {
 		client.Empty()
 	}
@@ -390,6 +394,7 @@ func (c *Channel) TouchMessage(clientID int64, id MessageID, clientMsgTimeout ti
 	if err != nil {
 		return err
 	}
+	verifPoint("chan.touch.afterPop")
 	c.removeFromInFlightPQ(msg)
 
 	newTimeout := time.Now().Add(clientMsgTimeout)
@@ -404,6 +409,7 @@ func (c *Channel) TouchMessage(clientID int64, id MessageID, clientMsgTimeout ti
 	if err != nil {
 		return err
 	}
+	verifPoint("chan.touch.afterMapPush")
 	c.addToInFlightPQ(msg)
 	return nil
 }
@@ -414,6 +420,7 @@ func (c *Channel) FinishMessage(clientID int64, id MessageID) error {
 	if err != nil {
 		return err
 	}
+	verifPoint("chan.fin.afterPop")
 	c.removeFromInFlightPQ(msg)
 	if c.e2eProcessingLatencyStream != nil {
 		c.e2eProcessingLatencyStream.Insert(msg.Timestamp)
@@ -433,6 +440,7 @@ func (c *Channel) RequeueMessage(clientID int64, id MessageID, timeout time.Dura
 	if err != nil {
 		return err
 	}
+	verifPoint("chan.req.afterPop")
 	c.removeFromInFlightPQ(msg)
 	atomic.AddUint64(&c.requeueCount, 1)
 
@@ -515,6 +523,7 @@ func (c *Channel) StartInFlightTimeout(msg *Message, clientID int64, timeout tim
 	if err != nil {
 		return err
 	}
+	verifPoint("chan.inflight.afterMapPush")
 	c.addToInFlightPQ(msg)
 	return nil
 }
@@ -526,6 +535,7 @@ func (c *Channel) StartDeferredTimeout(msg *Message, timeout time.Duration) erro
 	if err != nil {
 		return err
 	}
+	verifPoint("chan.deferred.afterMapPush")
 	c.addToDeferredPQ(item)
 	return nil
 }
@@ -660,6 +670,7 @@ func (c *Channel) processInFlightQueue(t int64) bool {
 		}
 		dirty = true
 
+		verifPoint("chan.scan.afterPQPop")
 		_, err := c.popInFlightMessage(msg.clientID, msg.ID)
 		if err != nil {
 			goto exit
